@@ -426,6 +426,11 @@ def write_evidence(pid, mod, tier, verif_seed, items, reported, harness_errors, 
                      "PRNG", "generated input files"]}),
         "exhaustive": bool(getattr(mod, "EXHAUSTIVE", {}).get(tier, False)),
     }
+    if hasattr(mod, "extra_coverage"):
+        try:
+            cov.update(mod.extra_coverage())
+        except Exception as e:  # noqa: BLE001
+            cov["extra_coverage_error"] = repr(e)
     ev = {
         "property_id": pid,
         "tier": tier,
